@@ -62,7 +62,10 @@ var virtTree = map[string]string{relA: virtA, relB: virtB, relC: virtC, relVOnly
 // real tree, relative to the worker's real cwd
 var realTree = map[string]string{relA: realA, relB: realB, relC: realC, relROnly: "VERIFSENT_REAL only\n"}
 
-var contexts = []string{"top", "spawn", "go", "clone", "module"}
+// "late-clone" and "late-call": the VM is built without an OS, first run with a plain context (the
+// script only defines verif_op then), and only the later Call — on a clone or on the VM itself — carries
+// the OS in its context. Only meaningful for the "ctx" route.
+var contexts = []string{"top", "spawn", "go", "clone", "module", "late-clone", "late-call"}
 var routes = []string{"withos", "ctx"}
 
 // Recipe is one way of calling one live operation.
@@ -333,6 +336,11 @@ func recipes() map[string][]Recipe {
 	add("filepath.join", want(pure("", `r := filepath.join(`+q(relDir)+`, "VERIFSENT_a.txt")`), relA))
 	add("filepath.match", want(pure("", `r := filepath.match("VERIFSENT_*", "VERIFSENT_a.txt")`), "true"))
 	add("filepath.rel", want(pure("", `r := filepath.rel(`+q(relDir)+`, `+q(relA)+`)`), "VERIFSENT_a.txt"))
+	for i, ab := range [][2]string{{`"/"`, `"."`}, {`"/"`, q(relA)}, {q(relDir), `"/"`}, {`"."`, `"/"`}, {`"/"`, `""`}} {
+		add("filepath.rel", pure(fmt.Sprintf("mixed%d", i), `r := try(func() { return filepath.rel(`+ab[0]+`, `+ab[1]+`) }, func(e) { return "E: " + string(e) })`))
+	}
+	add("filepath.abs", want(ev("", "dot", "", `r := filepath.abs(".")`), vCwd))
+	add("filepath.abs", want(ev("", "empty", "", `r := filepath.abs("")`), vCwd))
 	add("filepath.split", pure("", `r := filepath.split(`+q(relA)+`)`))
 	add("filepath.split_list", pure("", `r := filepath.split_list("/VERIFSENT_x:/VERIFSENT_y")`))
 	add("filepath.walk_dir", has(ev("", "rel-func", "", `acc := []; filepath.walk_dir(`+q(relDir)+`, func(p, d, err) { acc.append(p) }); r := acc`), "VERIFSENT_virtonly.txt", "VERIFSENT_c.txt"))
@@ -542,7 +550,7 @@ func buildScript(ctx, setup, op string) (main string, module string) {
 	case "go":
 		return "verif_c := chan(1)\ngo func() {\ndefer close(verif_c)\nverif_v := try(func() {\n" + body +
 			"return r\n}, func(e) { return \"caught: \" + string(e) })\nverif_c <- verif_v\n}()\n<-verif_c\n", ""
-	case "clone":
+	case "clone", "late-clone", "late-call":
 		return "func verif_op() {\n" + body + "return r\n}\n", ""
 	case "module":
 		return "import " + modName + "\n" + modName + ".verif_result\n", body + "verif_result := r\n"
